@@ -1,6 +1,5 @@
 """C12 — protocol messages are only accepted from the member index the sender controls."""
 META = {
-    "disabled": True,
     "level": "model_checking",
     "text": "One TLA+ admission predicate, parameterized by a steps table (45 rows: every state of GJKR, beacon result signing, "
             "tECDSA key generation and signing, result and claim signing, the readiness announcer, the coordination follower, the "
@@ -41,9 +40,16 @@ def run(ctx):
     #    (quick: the representative rows of step 2 only -- rows sharing a rule are decided by the same expression)
     if ctx.thorough:
         ctx.tlc(SPEC, "MC_Admission", cfg="MC_Admission_thorough", label="MC_AllRows_5seats", timeout=6000)
-    # 2. one representative row per rule: invariants again, and every case is emitted
-    g = ctx.tlc(SPEC, "MC_Admission", cfg="MC_Gen" + suffix, workers=1, coverage=True, label="MC_Gen" + suffix,
-                dump_trace=True, timeout=ctx.pick(1800, 6000))
+    # 2. one representative row per rule: invariants again, and every case is emitted;
+    # 3. (side by side, an independent model) streams of messages: the receivers that accumulate what they admit
+    #    (AdmissionLoop.tla); every behaviour of up to 3 deliveries over an 8-letter message alphabet, for 5 steps
+    from concurrent.futures import ThreadPoolExecutor
+    with ThreadPoolExecutor(max_workers=2) as pool:
+        fg = pool.submit(ctx.tlc, SPEC, "MC_Admission", cfg="MC_Gen" + suffix, workers=1, coverage=True,
+                         label="MC_Gen" + suffix, dump_trace=True, timeout=ctx.pick(1800, 6000))
+        fl = pool.submit(ctx.tlc, SPEC, "MC_Loop", cfg="MC_Loop", workers=1, coverage=True, label="MC_Loop",
+                         timeout=ctx.pick(1800, 3600))
+        g, lp = fg.result(), fl.result()
     ctx.require_coverage(g, INVARIANT_ACTIONS, "MC_Gen")
     cases = ctx.read_emitted(g, "cases.ndjson")
     rows = ctx.read_emitted(g, "rows.ndjson")        # the steps table and the world, written by ASSUMEs of MC_Admission
@@ -63,9 +69,6 @@ def run(ctx):
         r, len(by_rule[r]), sum(1 for c in by_rule[r] if c["expected"] != "ignored")) for r in rules))
     ctx.extra["steps_table"] = [{"step": r["id"], "rule": r["rule"], "accepts": r["accepts"], "others": r["others"],
                                  "observe": r["observe"]} for r in sorted(rows, key=lambda x: x["id"])]
-    # 3. streams of messages: the receivers that accumulate what they admit (AdmissionLoop.tla); every
-    #    behaviour of up to 3 deliveries over an 8-letter message alphabet, for 5 steps
-    lp = ctx.tlc(SPEC, "MC_Loop", cfg="MC_Loop", workers=1, coverage=True, label="MC_Loop", timeout=ctx.pick(1800, 3600))
     ctx.require_coverage(lp, ["DoDeliver"], "MC_Loop")
     seqs = ctx.read_emitted(lp, "sequences.ndjson")
     alphabet = ctx.read_emitted(lp, "alphabet.ndjson")
@@ -102,7 +105,6 @@ def run(ctx):
 
     # the eight harness binaries are independent: build and run them side by side
     # (each call works in its own scratch directory; results are folded in afterwards, in order)
-    from concurrent.futures import ThreadPoolExecutor
     with ThreadPoolExecutor(max_workers=int(os.environ.get("VERIF_C12_JOBS", "4"))) as pool:
         futures = [pool.submit(one, j) for j in jobs]
         results = []
